@@ -365,11 +365,25 @@ func newEventFromUntrustedJSONV1(eventJSON []byte, roomVersion IRoomVersion) (PD
 			err = CheckFields(result)
 			return result, err
 		}
+	} else if err = checkEventCanBeRedacted(eventJSON, roomVersion); err != nil {
+		return nil, err
 	}
 
 	err = CheckFields(res)
 
 	return res, err
+}
+
+// checkEventCanBeRedacted makes sure that the redaction algorithm can process the event.
+// Redact() and Sign() have no way of reporting an error later on, and unlike in the
+// later event formats nothing else runs the algorithm while parsing the event.
+func checkEventCanBeRedacted(eventJSON []byte, roomVersion IRoomVersion) error {
+	redactedJSON, err := roomVersion.RedactEventJSON(eventJSON)
+	if err != nil {
+		return err
+	}
+	_, err = CanonicalJSON(redactedJSON)
+	return err
 }
 
 func newEventFromTrustedJSONV1(eventJSON []byte, redacted bool, roomVersion IRoomVersion) (PDU, error) {
